@@ -548,3 +548,866 @@ Proof.
     repeat match type of H with context [2 ^ ?a] =>
       let v := eval vm_compute in (2 ^ a) in change (2 ^ a) with v in H end; lia.
 Qed.
+
+(* ====================================================================== *)
+(* Part 3: the bytes the encoder writes for a tree                          *)
+(* ====================================================================== *)
+
+(* elements / members with their separating commas *)
+Fixpoint seq_text (first : bool) (l : list bytes) : bytes :=
+  match l with
+  | [] => []
+  | x :: r => (if first then [] else [44]) ++ x ++ seq_text false r
+  end.
+
+(* the text jfloat writes under explicit_radix *)
+Definition radix_patch (b : bytes) : bytes :=
+  let '(idx, need) := radix_scan b 0 in
+  firstn idx b ++ (if need then [46; 48] else []) ++ skipn idx b.
+
+Lemma radix_patch_noneed b : snd (radix_scan b 0) = false -> radix_patch b = b.
+Proof.
+  unfold radix_patch. destruct (radix_scan b 0) as [idx need]. cbn [snd]. intros ->.
+  cbn [app]. apply firstn_skipn.
+Qed.
+
+Lemma on_field_next_bytes e : w_fail (je_w e) = None ->
+  bres e (bs_set (je_first e) false) (je_inarr e) (if bs_cur (je_first e) then [] else [44])
+       (on_field_next e).
+Proof.
+  intro N. unfold on_field_next. destruct (bs_cur (je_first e)) eqn:F.
+  - eexists. split; [reflexivity|]. cbn [je_first je_inarr je_w]. rewrite app_nil_r. auto.
+  - rewrite bs_set_same by exact F. apply jw_bytes; exact N.
+Qed.
+
+Lemma jfinish_bytes e (isarr : bool) f a bf ba : w_fail (je_w e) = None ->
+  bs_stack (je_first e) = bs_stack (bs_push f bf) ->
+  bs_stack (je_inarr e) = bs_stack (bs_push a ba) ->
+  bres e f a [if isarr then 93 else 125] (jfinish e isarr).
+Proof.
+  intros N Hf Ha. unfold jfinish.
+  rewrite (bs_pop_push f _ bf Hf), (bs_pop_push a _ ba Ha).
+  apply (jw_bytes {| je_w := je_w e; je_first := f; je_inarr := a |}). exact N.
+Qed.
+
+Lemma jstart_bytes e (isarr : bool) : w_fail (je_w e) = None ->
+  bres e (bs_push (after_val e) true) (bs_push (je_inarr e) isarr)
+       (sep e ++ [if isarr then 91 else 123]) (jstart e isarr).
+Proof.
+  intro N. unfold jstart.
+  destruct (try_elem_next_bytes e N) as (e1 & -> & F1 & A1 & N1 & B1). rewrite jthen_nil.
+  destruct (jw_bytes {| je_w := je_w e1; je_first := bs_push (je_first e1) true;
+                        je_inarr := bs_push (je_inarr e1) isarr |} [if isarr then 91 else 123] N1)
+    as (e2 & E2 & F2 & A2 & N2 & B2).
+  exists e2. split; [exact E2|]. cbn [je_first je_inarr je_w] in *.
+  split; [congruence|]. split; [congruence|]. split; [exact N2|].
+  rewrite B2, B1, <- app_assoc. reflexivity.
+Qed.
+
+Lemma jint_bytes e z : w_fail (je_w e) = None ->
+  bres e (after_val e) (je_inarr e) (sep e ++ int_chunk z) (jint e z).
+Proof.
+  intro N. unfold jint.
+  destruct (try_elem_next_bytes e N) as (e1 & -> & F1 & A1 & N1 & B1). rewrite jthen_nil.
+  destruct (jw_bytes e1 (int_chunk z) N1) as (e2 & E2 & F2 & A2 & N2 & B2).
+  exists e2. split; [exact E2|]. split; [congruence|]. split; [congruence|]. split; [exact N2|].
+  rewrite B2, B1, <- app_assoc. reflexivity.
+Qed.
+
+Lemma jlit_bytes e b : w_fail (je_w e) = None ->
+  bres e (after_val e) (je_inarr e) (sep e ++ b) (try_elem_next e >>= fun e => jw e b).
+Proof.
+  intro N.
+  destruct (try_elem_next_bytes e N) as (e1 & -> & F1 & A1 & N1 & B1). rewrite jthen_nil.
+  destruct (jw_bytes e1 b N1) as (e2 & E2 & F2 & A2 & N2 & B2).
+  exists e2. split; [exact E2|]. split; [congruence|]. split; [congruence|]. split; [exact N2|].
+  rewrite B2, B1, <- app_assoc. reflexivity.
+Qed.
+
+Lemma jkey_bytes cfg e k : w_fail (je_w e) = None -> bs_cur (je_inarr e) = false ->
+  bres e (bs_set (je_first e) false) (je_inarr e)
+       ((if bs_cur (je_first e) then [] else [44]) ++ str_text (escape_html cfg) k ++ [58]) (jkey cfg e k).
+Proof.
+  intros N Hin. unfold jkey.
+  destruct (on_field_next_bytes e N) as (e1 & -> & F1 & A1 & N1 & B1). rewrite jthen_nil.
+  destruct (jstring_bytes cfg e1 k N1) as (e2 & -> & F2 & A2 & N2 & B2). rewrite jthen_nil.
+  destruct (jw_bytes e2 [58] N2) as (e3 & E3 & F3 & A3 & N3 & B3).
+  assert (Hav : after_val e1 = je_first e1) by (unfold after_val; rewrite A1, Hin; reflexivity).
+  assert (Hsep : sep e1 = []) by (unfold sep; rewrite A1, Hin; reflexivity).
+  exists e3. split; [exact E3|]. split; [congruence|]. split; [congruence|]. split; [exact N3|].
+  rewrite B3, B2, B1, Hsep. cbn [app]. rewrite <- !app_assoc. reflexivity.
+Qed.
+
+Section EncText.
+  Variable ffmt : Z -> Z -> bytes.
+  Variable cfg : jcfg.
+
+  Definition float_text (w bits : Z) : bytes :=
+    if nonfinite w bits then kw_null
+    else if explicit_radix cfg then radix_patch (ffmt w bits) else ffmt w bits.
+
+  Definition scalar_text (s : scalar) : bytes :=
+    match s with
+    | SNil => kw_null
+    | SBool true => kw_true
+    | SBool false => kw_false
+    | SStr s => str_text (escape_html cfg) s
+    | SNum KFloat32 z => float_text 32 z
+    | SNum KFloat64 z => float_text 64 z
+    | SNum _ z => int_chunk z
+    end.
+
+  Definition member_text {A} (text : A -> bytes) (k : bytes) (v : A) : bytes :=
+    str_text (escape_html cfg) k ++ 58 :: text v.
+
+  Fixpoint tree_text (t : tree) : bytes :=
+    match t with
+    | TVal s _ => scalar_text s
+    | TArr _ _ es => 91 :: seq_text true (map tree_text es) ++ [93]
+    | TObj _ _ ms => 123 :: seq_text true (map (fun m => member_text tree_text (fst (fst m)) (snd m)) ms) ++ [125]
+    | TXArr _ es => 91 :: seq_text true (map scalar_text es) ++ [93]
+    | TXObj _ ms => 123 :: seq_text true (map (fun m => member_text scalar_text (fst m) (snd m)) ms) ++ [125]
+    end.
+
+  Lemma jfloat_bytes e w bits : w_fail (je_w e) = None ->
+    ignore_invalid cfg = true \/ nonfinite w bits = false ->
+    bres e (after_val e) (je_inarr e) (sep e ++ float_text w bits) (jfloat cfg ffmt e w bits).
+  Proof.
+    intros N Hfin. unfold jfloat, float_text.
+    destruct (try_elem_next_bytes e N) as (e1 & -> & F1 & A1 & N1 & B1). rewrite jthen_nil.
+    destruct (nonfinite w bits).
+    { destruct Hfin as [-> | Hfin]; [|discriminate].
+      destruct (jw_bytes e1 [110; 117; 108; 108] N1) as (e2 & E2 & F2 & A2 & N2 & B2).
+      exists e2. split; [exact E2|]. split; [congruence|]. split; [congruence|]. split; [exact N2|].
+      rewrite B2, B1, <- app_assoc. reflexivity. }
+    destruct (explicit_radix cfg).
+    2:{ destruct (jw_bytes e1 (ffmt w bits) N1) as (e2 & E2 & F2 & A2 & N2 & B2).
+        exists e2. split; [exact E2|]. split; [congruence|]. split; [congruence|]. split; [exact N2|].
+        rewrite B2, B1, <- app_assoc. reflexivity. }
+    unfold radix_patch. destruct (radix_scan (ffmt w bits) 0) as [idx need].
+    destruct (jw_bytes e1 (firstn idx (ffmt w bits)) N1) as (e2 & -> & F2 & A2 & N2 & B2).
+    rewrite jthen_nil.
+    destruct need.
+    - destruct (jw_bytes e2 [46; 48] N2) as (e3 & -> & F3 & A3 & N3 & B3). rewrite jthen_nil.
+      destruct (jw_bytes e3 (skipn idx (ffmt w bits)) N3) as (e4 & E4 & F4 & A4 & N4 & B4).
+      exists e4. split; [exact E4|]. split; [congruence|]. split; [congruence|]. split; [exact N4|].
+      rewrite B4, B3, B2, B1, <- !app_assoc. reflexivity.
+    - rewrite jthen_nil.
+      destruct (jw_bytes e2 (skipn idx (ffmt w bits)) N2) as (e4 & E4 & F4 & A4 & N4 & B4).
+      exists e4. split; [exact E4|]. split; [congruence|]. split; [congruence|]. split; [exact N4|].
+      rewrite B4, B2, B1, <- !app_assoc. reflexivity.
+  Qed.
+
+  Lemma jscalar_bytes e s : w_fail (je_w e) = None ->
+    ignore_invalid cfg = true \/ scalar_finite s = true ->
+    bres e (after_val e) (je_inarr e) (sep e ++ scalar_text s) (jscalar cfg ffmt e s).
+  Proof.
+    intros N Hfin. destruct s as [|b|s|k z]; cbn [jscalar scalar_text].
+    - apply jlit_bytes; exact N.
+    - destruct b; apply jlit_bytes; exact N.
+    - apply jstring_bytes; exact N.
+    - destruct k; try (apply jint_bytes; exact N); apply jfloat_bytes; try exact N;
+        cbn [scalar_finite] in Hfin; (destruct Hfin as [H|H]; [left; exact H|right]);
+        apply negb_true_iff in H; exact H.
+  Qed.
+
+  (* ---- runs ---- *)
+  Definition tres (e : jenc) (f a : bstack) (out : bytes) (r : jrun_res) : Prop :=
+    exists e', r = JRun e' None /\ je_first e' = f /\ je_inarr e' = a /\
+               w_fail (je_w e') = None /\ w_bytes (je_w e') = w_bytes (je_w e) ++ out.
+
+  Lemma tres_one e ev i f a out : bres e f a out (json_on cfg ffmt e ev) ->
+    tres e f a out (json_run cfg ffmt e [ev] i).
+  Proof.
+    intros (e1 & E & F & A & N & B). cbn [json_run]. rewrite E.
+    change (jnil =? jnil) with true. cbn iota. exists e1. auto.
+  Qed.
+
+  Lemma tres_app e evs1 evs2 i f a o1 f' a' o2 :
+    tres e f a o1 (json_run cfg ffmt e evs1 i) ->
+    (forall e1, je_first e1 = f -> je_inarr e1 = a -> w_fail (je_w e1) = None ->
+                tres e1 f' a' o2 (json_run cfg ffmt e1 evs2 (i + length evs1))) ->
+    tres e f' a' (o1 ++ o2) (json_run cfg ffmt e (evs1 ++ evs2) i).
+  Proof.
+    intros (e1 & E & F & A & N & B) Hk. rewrite json_run_app, E.
+    destruct (Hk e1 F A N) as (e2 & E2 & F2 & A2 & N2 & B2).
+    exists e2. split; [exact E2|]. split; [exact F2|]. split; [exact A2|]. split; [exact N2|].
+    rewrite B2, B, <- app_assoc. reflexivity.
+  Qed.
+
+  Lemma tres_cons e ev r i f a o1 f' a' o2 :
+    bres e f a o1 (json_on cfg ffmt e ev) ->
+    (forall e1, je_first e1 = f -> je_inarr e1 = a -> w_fail (je_w e1) = None ->
+                tres e1 f' a' o2 (json_run cfg ffmt e1 r (i + 1))) ->
+    tres e f' a' (o1 ++ o2) (json_run cfg ffmt e (ev :: r) i).
+  Proof.
+    intros H Hk. change (ev :: r) with ([ev] ++ r). eapply tres_app; [apply tres_one; exact H|exact Hk].
+  Qed.
+
+  Lemma tres_out e f a o o' r : tres e f a o r -> o = o' -> tres e f a o' r.
+  Proof. intros H <-. exact H. Qed.
+
+  Definition fin_ok' (t : tree) : Prop := ignore_invalid cfg = true \/ tree_finite t = true.
+
+  Definition PT (t : tree) : Prop :=
+    fin_ok' t -> forall e i, w_fail (je_w e) = None ->
+    tres e (after_val e) (je_inarr e) (sep e ++ tree_text t) (json_run cfg ffmt e (flatten t) i).
+
+  Lemma PT_val s r : PT (TVal s r).
+  Proof.
+    intros Hfin e i N.
+    assert (Hs : ignore_invalid cfg = true \/ scalar_finite s = true) by exact Hfin.
+    assert (H1 : tres e (after_val e) (je_inarr e) (sep e ++ scalar_text s) (json_run cfg ffmt e [EVal s] i)).
+    { apply tres_one. cbn [json_on json_basic]. apply jscalar_bytes; assumption. }
+    destruct s as [|b|s|k z]; try exact H1.
+    destruct r; [|exact H1]. cbn [flatten tree_text scalar_text].
+    apply tres_one. cbn [json_on json_basic]. apply jstring_bytes; exact N.
+  Qed.
+
+  Definition next_first (n : bool) (s : bstack) : bstack := if n then s else bs_set s false.
+
+  Lemma bs_set_idem s : bs_set (bs_set s false) false = bs_set s false.
+  Proof. reflexivity. Qed.
+
+  Lemma elems_text es : Forall PT es ->
+    ignore_invalid cfg = true \/ forallb tree_finite es = true ->
+    forall e i, w_fail (je_w e) = None -> bs_cur (je_inarr e) = true ->
+    tres e (next_first (is_nil es) (je_first e)) (je_inarr e)
+         (seq_text (bs_cur (je_first e)) (map tree_text es))
+         (json_run cfg ffmt e (flatten_elems es) i).
+  Proof.
+    induction 1 as [|t r Ht Hr IH]; intros Hfin e i N Hin; unfold flatten_elems; cbn [flat_map].
+    - exists e. cbn [map seq_text is_nil next_first]. rewrite app_nil_r. auto.
+    - assert (Hft : fin_ok' t /\ (ignore_invalid cfg = true \/ forallb tree_finite r = true)).
+      { destruct Hfin as [H|H]; [split; left; exact H|]. cbn [forallb] in H.
+        apply andb_true_iff in H. destruct H as [H1 H2]. split; right; assumption. }
+      destruct Hft as [Hft Hfr].
+      cbn [map seq_text is_nil next_first].
+      destruct (Ht Hft e i N) as (e1 & E1 & F1 & A1 & N1 & B1).
+      rewrite json_run_app, E1.
+      assert (Hin1 : bs_cur (je_inarr e1) = true) by congruence.
+      destruct (IH Hfr e1 (i + length (flatten t))%nat N1 Hin1) as (e2 & E2 & F2 & A2 & N2 & B2).
+      fold (flatten_elems r). exists e2. split; [exact E2|].
+      assert (Hav : after_val e = bs_set (je_first e) false) by (unfold after_val; rewrite Hin; reflexivity).
+      split.
+      { rewrite F2, F1, Hav. destruct (is_nil r); reflexivity. }
+      split; [congruence|]. split; [exact N2|].
+      rewrite B2, B1, F1, Hav. cbn [bs_set bs_cur]. unfold sep. rewrite Hin. cbn [andb].
+      destruct (bs_cur (je_first e)); cbn [negb]; rewrite <- !app_assoc; reflexivity.
+  Qed.
+
+  Lemma PT_arr len bt es : Forall PT es -> PT (TArr len bt es).
+  Proof.
+    intros Hes Hfin e i N. rewrite flatten_arr.
+    assert (Hf : ignore_invalid cfg = true \/ forallb tree_finite es = true) by exact Hfin.
+    destruct (jstart_bytes e true N) as (e1 & E1 & F1 & A1 & N1 & B1).
+    cbn [json_run json_on json_basic]. rewrite E1. change (jnil =? jnil) with true. cbn iota.
+    assert (Hin1 : bs_cur (je_inarr e1) = true) by (rewrite A1; reflexivity).
+    destruct (elems_text es Hes Hf e1 (S i) N1 Hin1) as (e2 & E2 & F2 & A2 & N2 & B2).
+    rewrite json_run_app, E2.
+    destruct (jfinish_bytes e2 true (after_val e) (je_inarr e) true true N2) as (e3 & E3 & F3 & A3 & N3 & B3).
+    { rewrite F2, F1. destruct (is_nil es); reflexivity. }
+    { rewrite A2, A1. reflexivity. }
+    cbn [json_run json_on json_basic]. rewrite E3. change (jnil =? jnil) with true. cbn iota.
+    exists e3. split; [reflexivity|]. split; [exact F3|]. split; [exact A3|]. split; [exact N3|].
+    rewrite B3, B2, B1, F1. cbn [bs_push bs_cur tree_text]. rewrite <- !app_assoc. reflexivity.
+  Qed.
+
+  Lemma members_text ms : Forall (fun m => PT (snd m)) ms ->
+    ignore_invalid cfg = true \/ forallb (fun m => tree_finite (snd m)) ms = true ->
+    forall e i, w_fail (je_w e) = None -> bs_cur (je_inarr e) = false ->
+    tres e (next_first (is_nil ms) (je_first e)) (je_inarr e)
+         (seq_text (bs_cur (je_first e)) (map (fun m => member_text tree_text (fst (fst m)) (snd m)) ms))
+         (json_run cfg ffmt e (flatten_members ms) i).
+  Proof.
+    induction 1 as [|[[k byref] t] r Ht Hr IH]; intros Hfin e i N Hin;
+      unfold flatten_members; cbn [flat_map].
+    - exists e. cbn [map seq_text is_nil next_first]. rewrite app_nil_r. auto.
+    - cbn [snd] in Ht.
+      assert (Hft : fin_ok' t /\ (ignore_invalid cfg = true \/
+                                 forallb (fun m => tree_finite (snd m)) r = true)).
+      { destruct Hfin as [H|H]; [split; left; exact H|]. cbn [forallb snd] in H.
+        apply andb_true_iff in H. destruct H as [H1 H2]. split; right; assumption. }
+      destruct Hft as [Hft Hfr].
+      assert (Hk : bres e (bs_set (je_first e) false) (je_inarr e)
+                     ((if bs_cur (je_first e) then [] else [44]) ++ str_text (escape_html cfg) k ++ [58])
+                     (json_on cfg ffmt e (key_event k byref))).
+      { unfold key_event. destruct byref; cbn [json_on json_basic]; apply jkey_bytes; assumption. }
+      destruct Hk as (e0 & E0 & F0 & A0 & N0 & B0).
+      cbn [app json_run]. rewrite E0. change (jnil =? jnil) with true. cbn iota.
+      destruct (Ht Hft e0 (S i) N0) as (e1 & E1 & F1 & A1 & N1 & B1).
+      rewrite json_run_app, E1.
+      assert (Hin0 : bs_cur (je_inarr e0) = false) by congruence.
+      assert (Hin1 : bs_cur (je_inarr e1) = false) by congruence.
+      destruct (IH Hfr e1 (S i + length (flatten t))%nat N1 Hin1) as (e2 & E2 & F2 & A2 & N2 & B2).
+      fold (flatten_members r). exists e2. split; [exact E2|].
+      assert (Hav : after_val e0 = bs_set (je_first e) false) by (unfold after_val; rewrite Hin0; exact F0).
+      split.
+      { cbn [is_nil next_first]. rewrite F2, F1, Hav. destruct (is_nil r); reflexivity. }
+      split; [congruence|]. split; [exact N2|].
+      rewrite B2, B1, B0, F1, Hav. cbn [bs_set bs_cur map seq_text fst snd]. unfold sep. rewrite Hin0. cbn [andb].
+      change (member_text tree_text k t) with (str_text (escape_html cfg) k ++ 58 :: tree_text t).
+      destruct (bs_cur (je_first e)); rewrite <- ?app_assoc; cbn [app]; rewrite <- ?app_assoc; cbn [app];
+        reflexivity.
+  Qed.
+
+  Lemma PT_obj len bt ms : Forall (fun m => PT (snd m)) ms -> PT (TObj len bt ms).
+  Proof.
+    intros Hms Hfin e i N. rewrite flatten_obj.
+    assert (Hf : ignore_invalid cfg = true \/ forallb (fun m => tree_finite (snd m)) ms = true)
+      by exact Hfin.
+    destruct (jstart_bytes e false N) as (e1 & E1 & F1 & A1 & N1 & B1).
+    cbn [json_run json_on json_basic]. rewrite E1. change (jnil =? jnil) with true. cbn iota.
+    assert (Hin1 : bs_cur (je_inarr e1) = false) by (rewrite A1; reflexivity).
+    destruct (members_text ms Hms Hf e1 (S i) N1 Hin1) as (e2 & E2 & F2 & A2 & N2 & B2).
+    rewrite json_run_app, E2.
+    destruct (jfinish_bytes e2 false (after_val e) (je_inarr e) true false N2) as (e3 & E3 & F3 & A3 & N3 & B3).
+    { rewrite F2, F1. destruct (is_nil ms); reflexivity. }
+    { rewrite A2, A1. reflexivity. }
+    cbn [json_run json_on json_basic]. rewrite E3. change (jnil =? jnil) with true. cbn iota.
+    exists e3. split; [reflexivity|]. split; [exact F3|]. split; [exact A3|]. split; [exact N3|].
+    rewrite B3, B2, B1, F1. cbn [bs_push bs_cur tree_text]. rewrite <- !app_assoc. reflexivity.
+  Qed.
+
+  Lemma tres_of_seq e ev i f a out : is_basic ev = false -> forallb is_basic (expand ev) = true ->
+    tres e f a out (json_run cfg ffmt e (expand ev) i) -> tres e f a out (json_run cfg ffmt e [ev] i).
+  Proof.
+    intros Hx Hb (e1 & E & F & A & N & B). cbn [json_run].
+    assert (Hon : json_on cfg ffmt e ev = json_seq cfg ffmt e (expand ev)).
+    { destruct ev; try discriminate; reflexivity. }
+    rewrite Hon, (json_seq_run ffmt cfg _ e i Hb), E.
+    change (jnil =? jnil) with true. cbn iota. exists e1. auto.
+  Qed.
+
+  Lemma PT_xarr bt es : PT (TXArr bt es).
+  Proof.
+    intros Hfin e i N. cbn [flatten].
+    apply tres_of_seq; [reflexivity| |].
+    - cbn [expand forallb is_basic]. rewrite forallb_app. cbn [forallb is_basic].
+      rewrite andb_true_r. clear. induction es as [|s r IH]; [reflexivity|].
+      cbn [map forallb is_basic]. exact IH.
+    - cbn [expand]. rewrite <- Json.EncProofs.flatten_elems_vals, <- flatten_arr.
+      assert (Ht : tree_text (TXArr bt es) = tree_text (TArr (zlen es) bt (map (fun s => TVal s false) es))).
+      { cbn [tree_text]. rewrite map_map. reflexivity. }
+      rewrite Ht. apply PT_arr; [| |exact N].
+      + apply Forall_forall. intros t Hin. apply in_map_iff in Hin. destruct Hin as (s & <- & _).
+        apply PT_val.
+      + destruct Hfin as [H|H]; [left; exact H|right]. cbn [tree_finite] in H |- *.
+        rewrite <- H. clear. induction es as [|s r IH]; [reflexivity|].
+        cbn [map forallb tree_finite]. rewrite IH. reflexivity.
+  Qed.
+
+  Lemma PT_xobj bt ms : PT (TXObj bt ms).
+  Proof.
+    intros Hfin e i N. cbn [flatten].
+    apply tres_of_seq; [reflexivity| |].
+    - cbn [expand forallb is_basic]. rewrite forallb_app. cbn [forallb is_basic].
+      rewrite andb_true_r. clear. induction ms as [|m r IH]; [reflexivity|].
+      cbn [flat_map app forallb is_basic]. exact IH.
+    - cbn [expand]. rewrite <- Json.EncProofs.flatten_members_vals, <- flatten_obj.
+      assert (Ht : tree_text (TXObj bt ms) =
+                   tree_text (TObj (zlen ms) bt (map (fun m : bytes * scalar => (fst m, false, TVal (snd m) false)) ms))).
+      { cbn [tree_text]. rewrite map_map. reflexivity. }
+      rewrite Ht. apply PT_obj; [| |exact N].
+      + apply Forall_forall. intros t Hin. apply in_map_iff in Hin. destruct Hin as (m & <- & _).
+        cbn [snd]. apply PT_val.
+      + destruct Hfin as [H|H]; [left; exact H|right]. cbn [tree_finite] in H |- *.
+        rewrite <- H. clear. induction ms as [|m r IH]; [reflexivity|].
+        cbn [map forallb tree_finite snd]. rewrite IH. reflexivity.
+  Qed.
+
+  (* the bytes written for a tree, from any healthy encoder state *)
+  Theorem json_enc_tree_text : forall t, ignore_invalid cfg = true \/ tree_finite t = true ->
+    forall e i, w_fail (je_w e) = None ->
+    exists e', json_run cfg ffmt e (flatten t) i = JRun e' None /\
+      je_first e' = after_val e /\ je_inarr e' = je_inarr e /\ w_fail (je_w e') = None /\
+      w_bytes (je_w e') = w_bytes (je_w e) ++ sep e ++ tree_text t.
+  Proof.
+    intro t. change (PT t). induction t using tree_ind'.
+    - apply PT_val.
+    - apply PT_arr; assumption.
+    - apply PT_obj; assumption.
+    - apply PT_xarr.
+    - apply PT_xobj.
+  Qed.
+End EncText.
+Print Assumptions json_enc_tree_text.
+
+(* ====================================================================== *)
+(* Part 4: the reference decoder reads the text back                       *)
+(* ====================================================================== *)
+
+Lemma json_ref_S pf f b : json_ref pf (S f) b =
+  match skip_ws b with
+  | [] => RTruncated
+  | c :: r =>
+      if c =? 110 then lit_value kw_null CNil (c :: r)
+      else if c =? 116 then lit_value kw_true (CBool true) (c :: r)
+      else if c =? 102 then lit_value kw_false (CBool false) (c :: r)
+      else if c =? 34 then
+        match json_string r with
+        | StrOk s rest => RValue (CStr s) rest
+        | StrTrunc => RTruncated
+        | StrBad => RMalformed
+        end
+      else if c =? 91 then
+        match skip_ws r with
+        | [] => RTruncated
+        | d :: r' => if d =? 93 then RValue (CArr []) r' else json_elems (json_ref pf f) f r []
+        end
+      else if c =? 123 then
+        match skip_ws r with
+        | [] => RTruncated
+        | d :: r' => if d =? 125 then RValue (CObj []) r' else json_members (json_ref pf f) f r []
+        end
+      else if (c =? 45) || is_dig c then
+        match json_number (c :: r) with
+        | NumOk lit isint rest =>
+            match json_num_value pf lit isint with
+            | Some n => RValue (CNum n) rest
+            | None => RUnsupported
+            end
+        | NumTrunc => RTruncated
+        | NumBad => RMalformed
+        end
+      else RMalformed
+  end.
+Proof. reflexivity. Qed.
+
+Lemma json_ref_null pf f rest : json_ref pf (S f) (kw_null ++ rest) = RValue CNil rest.
+Proof. reflexivity. Qed.
+Lemma json_ref_true pf f rest : json_ref pf (S f) (kw_true ++ rest) = RValue (CBool true) rest.
+Proof. reflexivity. Qed.
+Lemma json_ref_false pf f rest : json_ref pf (S f) (kw_false ++ rest) = RValue (CBool false) rest.
+Proof. reflexivity. Qed.
+
+Lemma json_ref_quote pf f r : json_ref pf (S f) (34 :: r) =
+  match json_string r with
+  | StrOk s rest => RValue (CStr s) rest
+  | StrTrunc => RTruncated
+  | StrBad => RMalformed
+  end.
+Proof. reflexivity. Qed.
+
+Lemma json_ref_arr pf f r : json_ref pf (S f) (91 :: r) =
+  match skip_ws r with
+  | [] => RTruncated
+  | d :: r' => if d =? 93 then RValue (CArr []) r' else json_elems (json_ref pf f) f r []
+  end.
+Proof. reflexivity. Qed.
+
+Lemma json_ref_obj pf f r : json_ref pf (S f) (123 :: r) =
+  match skip_ws r with
+  | [] => RTruncated
+  | d :: r' => if d =? 125 then RValue (CObj []) r' else json_members (json_ref pf f) f r []
+  end.
+Proof. reflexivity. Qed.
+
+Lemma json_ref_str pf f html s rest : all_bytes s = true ->
+  json_ref pf (S f) (str_text html s ++ rest) = RValue (CStr (sanitize s)) rest.
+Proof.
+  intro Hb. unfold str_text. cbn [app]. rewrite json_ref_quote, <- app_assoc. cbn [app].
+  rewrite json_string_roundtrip by exact Hb. reflexivity.
+Qed.
+
+(* a literal of the number grammar followed by a byte that cannot continue it *)
+Lemma reads_as_head pf txt n : reads_as pf txt n ->
+  exists c r, txt = c :: r /\ (c =? 45) || is_dig c = true.
+Proof.
+  intros (isint & Hn & _). rewrite json_number_eq in Hn. unfold sign_split in Hn.
+  destruct txt as [|c r]; [discriminate|]. exists c, r. split; [reflexivity|].
+  destruct (c =? 45) eqn:E; [reflexivity|]. cbn [snd lex_int orb] in Hn.
+  unfold is_dig. destruct (c =? 48) eqn:E0; [lia|].
+  destruct ((49 <=? c) && (c <=? 57)) eqn:E1; [lia|discriminate].
+Qed.
+
+Lemma json_ref_num pf f txt n rest : reads_as pf txt n -> num_stop rest = true ->
+  json_ref pf (S f) (txt ++ rest) = RValue (CNum n) rest.
+Proof.
+  intros Hr Hs. destruct (reads_as_head pf txt n Hr) as (c & r & -> & Hc).
+  destruct Hr as (isint & Hn & Hv).
+  pose proof (json_number_app _ _ _ _ rest Hn Hs) as Hn'. cbn [app] in Hn'.
+  rewrite json_ref_S. cbn [app].
+  assert (Hws : is_ws c = false) by (unfold is_ws; unfold is_dig in Hc; lia).
+  cbn [skip_ws]. rewrite Hws. unfold is_dig in Hc.
+  replace (c =? 110) with false by lia. replace (c =? 116) with false by lia.
+  replace (c =? 102) with false by lia. replace (c =? 34) with false by lia.
+  replace (c =? 91) with false by lia. replace (c =? 123) with false by lia.
+  fold (is_dig c) in Hc. rewrite Hc, Hn', Hv. reflexivity.
+Qed.
+
+(* a value starts with neither a closing bracket nor a closing brace *)
+Lemma json_ref_value_head pf f b v rest : json_ref pf f b = RValue v rest ->
+  exists c r, skip_ws b = c :: r /\ (c =? 93) = false /\ (c =? 125) = false.
+Proof.
+  destruct f as [|f]; [discriminate|]. rewrite json_ref_S.
+  destruct (skip_ws b) as [|c r]; [discriminate|]. intro H. exists c, r. split; [reflexivity|].
+  split.
+  - destruct (c =? 93) eqn:E; [|reflexivity]. assert (c = 93) by lia. subst c. discriminate H.
+  - destruct (c =? 125) eqn:E; [|reflexivity]. assert (c = 125) by lia. subst c. discriminate H.
+Qed.
+
+Lemma json_elems_S value g b acc : json_elems value (S g) b acc =
+  match value b with
+  | RValue v r =>
+      match skip_ws r with
+      | [] => RTruncated
+      | c :: r' =>
+          if c =? 44 then json_elems value g r' (v :: acc)
+          else if c =? 93 then RValue (CArr (rev (v :: acc))) r'
+          else RMalformed
+      end
+  | e => e
+  end.
+Proof. reflexivity. Qed.
+
+Lemma seq_text_false_cons x r : seq_text false (x :: r) = 44 :: x ++ seq_text false r.
+Proof. reflexivity. Qed.
+
+(* elements: [value] reads every element text followed by a delimiter *)
+Lemma elems_dec (value : bytes -> ref_result) (text : tree -> bytes) (img : tree -> cvalue) :
+  forall r x g acc rest,
+  (forall t, In t (x :: r) -> forall rest', delim rest' = true -> value (text t ++ rest') = RValue (img t) rest') ->
+  (length r < g)%nat ->
+  json_elems value g (text x ++ seq_text false (map text r) ++ 93 :: rest) acc =
+  RValue (CArr (rev acc ++ img x :: map img r)) rest.
+Proof.
+  induction r as [|y r IH]; intros x g acc rest Hv Hg; (destruct g as [|g]; [lia|]); rewrite json_elems_S.
+  - cbn [map seq_text app]. rewrite (Hv x (or_introl eq_refl)) by reflexivity.
+    cbn [skip_ws is_ws]. change (is_ws 93) with false. cbn iota.
+    change (93 =? 44) with false. change (93 =? 93) with true. cbn iota. cbn [rev map]. reflexivity.
+  - cbn [map]. rewrite seq_text_false_cons. cbn [app].
+    rewrite (Hv x (or_introl eq_refl)) by reflexivity.
+    cbn [skip_ws]. change (is_ws 44) with false. cbn iota. change (44 =? 44) with true. cbn iota.
+    rewrite <- app_assoc. rewrite IH.
+    + cbn [rev map]. rewrite <- app_assoc. reflexivity.
+    + intros t Ht. apply Hv. right. exact Ht.
+    + cbn [length] in Hg. lia.
+Qed.
+
+Lemma json_members_S value g b acc : json_members value (S g) b acc =
+  match skip_ws b with
+  | [] => RTruncated
+  | q :: r0 =>
+      if negb (q =? 34) then RMalformed else
+      match json_string r0 with
+      | StrTrunc => RTruncated
+      | StrBad => RMalformed
+      | StrOk k r1 =>
+          match skip_ws r1 with
+          | [] => RTruncated
+          | c :: r2 =>
+              if negb (c =? 58) then RMalformed else
+              match value r2 with
+              | RValue v r3 =>
+                  match skip_ws r3 with
+                  | [] => RTruncated
+                  | d :: r4 =>
+                      if d =? 44 then json_members value g r4 ((k, v) :: acc)
+                      else if d =? 125 then RValue (CObj (rev ((k, v) :: acc))) r4
+                      else RMalformed
+                  end
+              | e => e
+              end
+          end
+      end
+  end.
+Proof. reflexivity. Qed.
+
+Lemma members_dec {A} (value : bytes -> ref_result) (html : bool) (key : A -> bytes) (text : A -> bytes)
+  (img : A -> cvalue) :
+  forall (r : list A) (x : A) g acc rest,
+  (forall m, In m (x :: r) -> all_bytes (key m) = true /\
+     forall rest', delim rest' = true -> value (text m ++ rest') = RValue (img m) rest') ->
+  (length r < g)%nat ->
+  json_members value g
+    ((str_text html (key x) ++ 58 :: text x) ++
+     seq_text false (map (fun m => str_text html (key m) ++ 58 :: text m) r) ++ 125 :: rest) acc =
+  RValue (CObj (rev acc ++ (sanitize (key x), img x) :: map (fun m => (sanitize (key m), img m)) r)) rest.
+Proof.
+  induction r as [|y r IH]; intros x g acc rest Hv Hg; (destruct g as [|g]; [lia|]); rewrite json_members_S;
+    destruct (Hv x (or_introl eq_refl)) as [Hk Hx];
+    unfold str_text at 1; cbn [app skip_ws]; change (is_ws 34) with false; cbn iota;
+    change (negb (34 =? 34)) with false; cbn iota;
+    rewrite <- !app_assoc; cbn [app]; rewrite (json_string_roundtrip html (key x) _ Hk);
+    cbn [skip_ws]; change (is_ws 58) with false; cbn iota; change (negb (58 =? 58)) with false; cbn iota.
+  - cbn [map seq_text app]. rewrite Hx by reflexivity.
+    cbn [skip_ws]. change (is_ws 125) with false. cbn iota.
+    change (125 =? 44) with false. change (125 =? 125) with true. cbn iota. cbn [rev map]. reflexivity.
+  - cbn [map]. rewrite seq_text_false_cons. cbn [app]. rewrite Hx by reflexivity.
+    cbn [skip_ws]. change (is_ws 44) with false. cbn iota. change (44 =? 44) with true. cbn iota.
+    rewrite <- (app_assoc (str_text html (key y) ++ 58 :: text y)). rewrite IH.
+    + cbn [rev map]. rewrite <- app_assoc. reflexivity.
+    + intros t Ht. apply Hv. right. exact Ht.
+    + cbn [length] in Hg. lia.
+Qed.
+
+Lemma seq_text_len_in first l x : In x l -> (length x <= length (seq_text first l))%nat.
+Proof.
+  revert first. induction l as [|y l IH]; intros first H; [contradiction|].
+  cbn [seq_text]. rewrite !app_length. destruct H as [-> | H]; [lia|].
+  specialize (IH false H). lia.
+Qed.
+
+Lemma seq_text_len_count l : (length l <= length (seq_text false l))%nat.
+Proof.
+  induction l as [|y l IH]; [cbn; lia|]. cbn [seq_text length]. rewrite !app_length. cbn [length]. lia.
+Qed.
+
+Lemma seq_text_len_count_true l : (length l <= S (length (seq_text true l)))%nat.
+Proof.
+  destruct l as [|y l]; [cbn; lia|]. cbn [seq_text length app]. rewrite app_length.
+  pose proof (seq_text_len_count l). lia.
+Qed.
+
+Lemma delim_seq_arr l rest : delim (seq_text false l ++ 93 :: rest) = true.
+Proof. destruct l; reflexivity. Qed.
+Lemma delim_seq_obj l rest : delim (seq_text false l ++ 125 :: rest) = true.
+Proof. destruct l; reflexivity. Qed.
+
+(* ====================================================================== *)
+(* Part 5: C07 for JSON                                                    *)
+(* ====================================================================== *)
+Section JsonRT.
+  Variable ffmt : Z -> Z -> bytes.        (* strconv.AppendFloat(_, f, 'g', -1, w) on the float with bit pattern [bits] *)
+  Variable pf : bytes -> option Z.         (* strconv.ParseFloat(_, 64) as bits; None = range error *)
+  Variable fimg : Z -> Z -> cnum.          (* what the reference reads the text of a finite float as *)
+  Variable fimg_r : Z -> Z -> cnum.        (* the same for the text with ".0" inserted (explicit_radix) *)
+
+  (* H-grammar + H-value: the text strconv writes for a finite float is a
+     number of the RFC 8259 grammar (all of it), and [fimg] is its value *)
+  Hypothesis ffmt_number : forall w bits, w = 32 \/ w = 64 -> in_u w bits = true ->
+    nonfinite w bits = false ->
+    exists isint, json_number (ffmt w bits) = NumOk (ffmt w bits) isint [] /\
+                  json_num_value pf (ffmt w bits) isint = Some (fimg w bits).
+  (* the same for the patched text, when the encoder inserts ".0" *)
+  Hypothesis ffmt_radix : forall w bits, w = 32 \/ w = 64 -> in_u w bits = true ->
+    nonfinite w bits = false -> snd (radix_scan (ffmt w bits) 0) = true ->
+    exists isint, json_number (radix_patch (ffmt w bits)) = NumOk (radix_patch (ffmt w bits)) isint [] /\
+                  json_num_value pf (radix_patch (ffmt w bits)) isint = Some (fimg_r w bits).
+
+  Section Cfg.
+    Variable cfg : jcfg.
+
+    Definition float_img (w bits : Z) : cvalue :=
+      if nonfinite w bits then CNil
+      else CNum (if explicit_radix cfg && snd (radix_scan (ffmt w bits) 0) then fimg_r w bits else fimg w bits).
+
+    Definition scalar_img (s : scalar) : cvalue :=
+      match s with
+      | SNil => CNil
+      | SBool b => CBool b
+      | SStr s => CStr (sanitize s)
+      | SNum KFloat32 z => float_img 32 z
+      | SNum KFloat64 z => float_img 64 z
+      | SNum _ z => CNum (CInt z)
+      end.
+
+    (* the image of a tree's value under a trip through JSON *)
+    Fixpoint json_img (t : tree) : cvalue :=
+      match t with
+      | TVal s _ => scalar_img s
+      | TArr _ _ es => CArr (map json_img es)
+      | TObj _ _ ms => CObj (map (fun m => (sanitize (fst (fst m)), json_img (snd m))) ms)
+      | TXArr _ es => CArr (map scalar_img es)
+      | TXObj _ ms => CObj (map (fun m => (sanitize (fst m), scalar_img (snd m))) ms)
+      end.
+
+    Lemma float_dec w bits f rest : w = 32 \/ w = 64 -> in_u w bits = true ->
+      ignore_invalid cfg = true \/ nonfinite w bits = false -> num_stop rest = true ->
+      json_ref pf (S f) (float_text ffmt cfg w bits ++ rest) = RValue (float_img w bits) rest.
+    Proof.
+      intros Hw Hu Hfin Hs. unfold float_text, float_img.
+      destruct (nonfinite w bits) eqn:Hnf; [apply json_ref_null|].
+      destruct (explicit_radix cfg); cbn [andb].
+      - destruct (snd (radix_scan (ffmt w bits) 0)) eqn:Hneed.
+        + apply json_ref_num; [|exact Hs]. apply ffmt_radix; assumption.
+        + rewrite radix_patch_noneed by exact Hneed. apply json_ref_num; [|exact Hs].
+          apply ffmt_number; assumption.
+      - apply json_ref_num; [|exact Hs]. apply ffmt_number; assumption.
+    Qed.
+
+    Lemma scalar_dec s f rest : scalar_ok s = true ->
+      ignore_invalid cfg = true \/ scalar_finite s = true -> delim rest = true ->
+      json_ref pf (S f) (scalar_text ffmt cfg s ++ rest) = RValue (scalar_img s) rest.
+    Proof.
+      intros Hok Hfin Hd. pose proof (delim_num_stop rest Hd) as Hs.
+      destruct s as [|b|s|k z]; cbn [scalar_text scalar_img].
+      - apply json_ref_null.
+      - destruct b; [apply json_ref_true|apply json_ref_false].
+      - apply json_ref_str. exact Hok.
+      - cbn [scalar_ok] in Hok.
+        assert (Hint : k <> KFloat32 -> k <> KFloat64 ->
+                       json_ref pf (S f) (int_chunk z ++ rest) = RValue (CNum (CInt z)) rest).
+        { intros H1 H2. apply json_ref_num; [|exact Hs]. apply int_reads_as.
+          eapply nkind_int_range; eassumption. }
+        destruct k; try (apply Hint; discriminate);
+          (apply float_dec; [auto|exact Hok| |exact Hs]);
+          cbn [scalar_finite] in Hfin; (destruct Hfin as [H|H]; [left; exact H|right]);
+          apply negb_true_iff in H; exact H.
+    Qed.
+
+    Definition QT (t : tree) : Prop :=
+      wf_tree t = true -> fin_ok' cfg t -> forall f rest, delim rest = true ->
+      (length (tree_text ffmt cfg t) < f)%nat ->
+      json_ref pf f (tree_text ffmt cfg t ++ rest) = RValue (json_img t) rest.
+
+    Lemma QT_val s r : QT (TVal s r).
+    Proof.
+      intros Hwf Hfin f rest Hd Hf. destruct f as [|f]; [lia|].
+      cbn [tree_text json_img]. apply scalar_dec; assumption.
+    Qed.
+
+    Lemma QT_arr len bt es : Forall QT es -> QT (TArr len bt es).
+    Proof.
+      intros Hes Hwf Hfin f rest Hd Hf. destruct f as [|f]; [lia|].
+      rewrite wf_arr in Hwf. apply andb_true_iff in Hwf. destruct Hwf as [_ Hwf].
+      cbn [tree_text json_img] in Hf |- *. cbn [app]. rewrite json_ref_arr.
+      cbn [length] in Hf. rewrite app_length in Hf. cbn [length] in Hf.
+      assert (Hv : forall t, In t es -> forall rest', delim rest' = true ->
+                   json_ref pf f (tree_text ffmt cfg t ++ rest') = RValue (json_img t) rest').
+      { intros t Ht rest' Hd'. rewrite Forall_forall in Hes. apply (Hes t Ht).
+        - rewrite forallb_forall in Hwf. apply Hwf. exact Ht.
+        - destruct Hfin as [H|H]; [left; exact H|right]. cbn [tree_finite] in H.
+          rewrite forallb_forall in H. apply H. exact Ht.
+        - exact Hd'.
+        - pose proof (seq_text_len_in true (map (tree_text ffmt cfg) es) (tree_text ffmt cfg t)
+                        (in_map _ _ _ Ht)). lia. }
+      pose proof (seq_text_len_count_true (map (tree_text ffmt cfg) es)) as Hcnt.
+      rewrite map_length in Hcnt.
+      destruct es as [|x r]; [reflexivity|].
+      cbn [map seq_text app]. rewrite <- !app_assoc. cbn [app].
+      pose proof (Hv x (or_introl eq_refl) _ (delim_seq_arr (map (tree_text ffmt cfg) r) rest)) as Hx.
+      destruct (json_ref_value_head _ _ _ _ _ Hx) as (c & r' & Hsk & Hc & _).
+      rewrite Hsk, Hc.
+      rewrite (elems_dec (json_ref pf f) (tree_text ffmt cfg) json_img r x f [] rest Hv).
+      - reflexivity.
+      - cbn [length] in Hcnt. lia.
+    Qed.
+
+    Lemma QT_obj len bt ms : Forall (fun m => QT (snd m)) ms -> QT (TObj len bt ms).
+    Proof.
+      intros Hms Hwf Hfin f rest Hd Hf. destruct f as [|f]; [lia|].
+      rewrite wf_obj in Hwf. apply andb_true_iff in Hwf. destruct Hwf as [_ Hwf].
+      cbn [tree_text json_img] in Hf |- *. cbn [app]. rewrite json_ref_obj.
+      cbn [length] in Hf. rewrite app_length in Hf. cbn [length] in Hf.
+      set (mt := fun m : bytes * bool * tree => member_text cfg (tree_text ffmt cfg) (fst (fst m)) (snd m)) in *.
+      assert (Hv : forall m, In m ms -> all_bytes (fst (fst m)) = true /\ forall rest', delim rest' = true ->
+                   json_ref pf f (tree_text ffmt cfg (snd m) ++ rest') = RValue (json_img (snd m)) rest').
+      { intros m Hm. rewrite forallb_forall in Hwf. specialize (Hwf m Hm).
+        apply andb_true_iff in Hwf. destruct Hwf as [Hk Hwm]. split; [exact Hk|].
+        intros rest' Hd'. rewrite Forall_forall in Hms. apply (Hms m Hm).
+        - exact Hwm.
+        - destruct Hfin as [H|H]; [left; exact H|right]. cbn [tree_finite] in H.
+          rewrite forallb_forall in H. apply (H m Hm).
+        - exact Hd'.
+        - pose proof (seq_text_len_in true (map mt ms) (mt m) (in_map _ _ _ Hm)) as Hl.
+          unfold mt at 1 in Hl. unfold member_text in Hl. rewrite app_length in Hl. cbn [length] in Hl. lia. }
+      pose proof (seq_text_len_count_true (map mt ms)) as Hcnt.
+      rewrite map_length in Hcnt.
+      destruct ms as [|x r]; [reflexivity|].
+      cbn [map seq_text app]. rewrite <- !app_assoc. cbn [app].
+      unfold mt at 1. unfold member_text, str_text at 1. cbn [app skip_ws]. change (is_ws 34) with false. cbn iota.
+      change (34 =? 125) with false. cbn iota.
+      pose proof (members_dec (json_ref pf f) (escape_html cfg) (fun m : bytes * bool * tree => fst (fst m))
+                    (fun m => tree_text ffmt cfg (snd m)) (fun m => json_img (snd m)) r x f [] rest Hv) as Hmd.
+      apply Hmd. cbn [length] in Hcnt. lia.
+    Qed.
+
+    Lemma QT_xarr bt es : QT (TXArr bt es).
+    Proof.
+      intros Hwf Hfin f rest Hd Hf.
+      pose proof (expand_tree_wf (TXArr bt es) Hwf) as Hwf'. cbn [expand_tree_top] in Hwf'.
+      assert (Ht : tree_text ffmt cfg (TXArr bt es) =
+                   tree_text ffmt cfg (TArr (zlen es) bt (map (fun s => TVal s false) es))).
+      { cbn [tree_text]. rewrite map_map. reflexivity. }
+      assert (Hi : json_img (TXArr bt es) = json_img (TArr (zlen es) bt (map (fun s => TVal s false) es))).
+      { cbn [json_img]. rewrite map_map. reflexivity. }
+      rewrite Ht in Hf |- *. rewrite Hi.
+      apply QT_arr; try assumption.
+      - apply Forall_forall. intros t Hin. apply in_map_iff in Hin. destruct Hin as (s & <- & _).
+        apply QT_val.
+      - destruct Hfin as [H|H]; [left; exact H|right]. cbn [tree_finite] in H |- *.
+        rewrite <- H. clear. induction es as [|s r IH]; [reflexivity|].
+        cbn [map forallb tree_finite]. rewrite IH. reflexivity.
+    Qed.
+
+    Lemma QT_xobj bt ms : QT (TXObj bt ms).
+    Proof.
+      intros Hwf Hfin f rest Hd Hf.
+      pose proof (expand_tree_wf (TXObj bt ms) Hwf) as Hwf'. cbn [expand_tree_top] in Hwf'.
+      assert (Ht : tree_text ffmt cfg (TXObj bt ms) =
+                   tree_text ffmt cfg (TObj (zlen ms) bt (map (fun m : bytes * scalar => (fst m, false, TVal (snd m) false)) ms))).
+      { cbn [tree_text]. rewrite map_map. reflexivity. }
+      assert (Hi : json_img (TXObj bt ms) =
+                   json_img (TObj (zlen ms) bt (map (fun m : bytes * scalar => (fst m, false, TVal (snd m) false)) ms))).
+      { cbn [json_img]. rewrite map_map. reflexivity. }
+      rewrite Ht in Hf |- *. rewrite Hi.
+      apply QT_obj; try assumption.
+      - apply Forall_forall. intros t Hin. apply in_map_iff in Hin. destruct Hin as (m & <- & _).
+        cbn [snd]. apply QT_val.
+      - destruct Hfin as [H|H]; [left; exact H|right]. cbn [tree_finite] in H |- *.
+        rewrite <- H. clear. induction ms as [|m r IH]; [reflexivity|].
+        cbn [map forallb tree_finite snd]. rewrite IH. reflexivity.
+    Qed.
+
+    (* the reference decoder reads the text of a well-formed tree, followed by
+       a delimiter, as the image of the tree *)
+    Theorem json_dec_tree_text : forall t, wf_tree t = true ->
+      ignore_invalid cfg = true \/ tree_finite t = true ->
+      forall fuel rest, delim rest = true -> (length (tree_text ffmt cfg t) < fuel)%nat ->
+      json_ref pf fuel (tree_text ffmt cfg t ++ rest) = RValue (json_img t) rest.
+    Proof.
+      intro t. change (QT t). induction t using tree_ind'.
+      - apply QT_val.
+      - apply QT_arr; assumption.
+      - apply QT_obj; assumption.
+      - apply QT_xarr.
+      - apply QT_xobj.
+    Qed.
+
+    (* C07 (value part), generalised: from any healthy encoder state (top level,
+       inside an array, after a key) the bytes appended for a well-formed tree are
+       the separator followed by a text that the reference decoder reads, in front
+       of any delimiter, as the image of the tree *)
+    Theorem json_enc_tree_value : forall t, wf_tree t = true ->
+      ignore_invalid cfg = true \/ tree_finite t = true ->
+      forall e i, w_fail (je_w e) = None ->
+      exists e' txt, json_run cfg ffmt e (flatten t) i = JRun e' None /\
+        je_first e' = after_val e /\ je_inarr e' = je_inarr e /\ w_fail (je_w e') = None /\
+        w_bytes (je_w e') = w_bytes (je_w e) ++ sep e ++ txt /\
+        forall fuel rest, delim rest = true -> (length txt < fuel)%nat ->
+          json_ref pf fuel (txt ++ rest) = RValue (json_img t) rest.
+    Proof.
+      intros t Hwf Hfin e i N.
+      destruct (json_enc_tree_text ffmt cfg t Hfin e i N) as (e' & E & F & A & N' & B).
+      exists e', (tree_text ffmt cfg t). repeat (split; [assumption|]).
+      intros fuel rest Hd Hf. apply json_dec_tree_text; assumption.
+    Qed.
+
+    Theorem C07_json_cfg : forall t, wf_tree t = true ->
+      ignore_invalid cfg = true \/ tree_finite t = true ->
+      exists e', json_run cfg ffmt (jenc0 None) (flatten t) 0 = JRun e' None /\
+                 json_decode pf (w_bytes (je_w e')) = RValue (json_img t) [].
+    Proof.
+      intros t Hwf Hfin.
+      destruct (json_enc_tree_value t Hwf Hfin (jenc0 None) 0%nat eq_refl)
+        as (e' & txt & E & _ & _ & _ & B & D).
+      exists e'. split; [exact E|].
+      change (w_bytes (je_w (jenc0 None)) ++ sep (jenc0 None) ++ txt) with txt in B. rewrite B.
+      unfold json_decode. specialize (D (S (length txt)) [] eq_refl ltac:(lia)).
+      rewrite app_nil_r in D. rewrite D. reflexivity.
+    Qed.
+  End Cfg.
+
+  Theorem C07_json : forall cfg t, wf_tree t = true ->
+    (ignore_invalid cfg = true \/ tree_finite t = true) ->
+    exists e', json_run cfg ffmt (jenc0 None) (flatten t) 0 = JRun e' None /\
+               json_decode pf (w_bytes (je_w e')) = RValue (json_img cfg t) [].
+  Proof. exact C07_json_cfg. Qed.
+End JsonRT.
+Print Assumptions json_dec_tree_text.
+Print Assumptions json_enc_tree_value.
+Print Assumptions C07_json.
+Check C07_json.
+Check json_enc_tree_value.
